@@ -904,37 +904,7 @@ func checkC16(c *Ctx, r *Report) {
 		}
 		r.cond(okc, "R7", key, c.pos(cm.snDisp.Pos()), firstOutcome(outs), "the client does not acknowledge this REGISTER with REGACK(accepted): when its first REGACK is lost the gateway's retransmission (same name, same ID) is rejected, the gateway fails the exchange and the broker's message is dropped although the loss was within the retry budget: "+allOutcomes(outs))
 	}
-	// the client's QoS 2 receive transaction keeps the PUBLISH it is handed (each time)
-	for _, f := range c.repoFuncs("client") {
-		if f.Signature.Recv() == nil || len(f.Params) != 2 || !typeIs(f.Params[1].Type(), pkPackets1, "Publish") {
-			continue
-		}
-		st := structOf(f.Signature.Recv().Type())
-		if st == nil {
-			continue
-		}
-		field := ""
-		for k := 0; k < st.NumFields(); k++ {
-			if typeIs(st.Field(k).Type(), pkPackets1, "Publish") {
-				field = st.Field(k).Name()
-			}
-		}
-		if field == "" {
-			continue
-		}
-		r.fn(f)
-		key := fnKey(f) + ":stores-received-publish"
-		isStore := func(x ssa.Instruction) bool {
-			s, ok := x.(*ssa.Store)
-			if !ok {
-				return false
-			}
-			fa, ok := s.Addr.(*ssa.FieldAddr)
-			return ok && fieldName(fa.X.Type(), fa.Field) == field && s.Val == ssa.Value(f.Params[1])
-		}
-		reach, _ := pathExists(f, nil, func(x ssa.Instruction) bool { _, ok := x.(*ssa.Return); return ok }, isStore)
-		r.cond(!reach, "R5", key, c.pos(f.Pos()), "every path stores the received PUBLISH for the PUBREL", "a path does not record the received QoS 2 PUBLISH: on PUBREL the handler runs with a stale message (exactly-once broken when a message ID is reused)")
-	}
+	c.checkStoresReceivedPublish(r, "R5", "a path does not record the received QoS 2 PUBLISH: on PUBREL the handler runs with a stale message (exactly-once broken when a message ID is reused)")
 	// R4: budget stop (re-check of the shared rule's core)
 	for _, fn := range c.repoFuncs("transactions") {
 		var cb ssa.Instruction
@@ -1193,4 +1163,45 @@ func (c *Ctx) checkClientRegistryMonotone(r *Report, rule string, m *gwModel) {
 
 func stableFieldKeyOfCell(cell string) string {
 	return strings.TrimPrefix(cell, "f:")
+}
+
+// checkStoresReceivedPublish: the client's QoS 2 receive transaction keeps the PUBLISH it is handed, on every path of
+// the method that takes it (the PUBREL handler dereferences the stored pointer unconditionally).
+func (c *Ctx) checkStoresReceivedPublish(r *Report, rule, why string) {
+	n := 0
+	// the client's QoS 2 receive transaction keeps the PUBLISH it is handed (each time)
+	for _, f := range c.repoFuncs("client") {
+		if f.Signature.Recv() == nil || len(f.Params) != 2 || !typeIs(f.Params[1].Type(), pkPackets1, "Publish") {
+			continue
+		}
+		st := structOf(f.Signature.Recv().Type())
+		if st == nil {
+			continue
+		}
+		field := ""
+		for k := 0; k < st.NumFields(); k++ {
+			if typeIs(st.Field(k).Type(), pkPackets1, "Publish") {
+				field = st.Field(k).Name()
+			}
+		}
+		if field == "" {
+			continue
+		}
+		r.fn(f)
+		key := fnKey(f) + ":stores-received-publish"
+		isStore := func(x ssa.Instruction) bool {
+			s, ok := x.(*ssa.Store)
+			if !ok {
+				return false
+			}
+			fa, ok := s.Addr.(*ssa.FieldAddr)
+			return ok && fieldName(fa.X.Type(), fa.Field) == field && s.Val == ssa.Value(f.Params[1])
+		}
+		reach, _ := pathExists(f, nil, func(x ssa.Instruction) bool { _, ok := x.(*ssa.Return); return ok }, isStore)
+		n++
+		r.cond(!reach, rule, key, c.pos(f.Pos()), "every path stores the received PUBLISH for the PUBREL", why)
+	}
+	if n == 0 {
+		r.undecided(rule, "client:stores-received-publish", "-", "no client method taking a *Publish into a struct that keeps one found")
+	}
 }
